@@ -511,6 +511,68 @@ class Rewriter:
         self.hit("R10", n)
         return n
 
+    # R12 -----------------------------------------------------------------
+    def expand_macro(self, name, macro_text):
+        """Expand every invocation `NAME!(args)` (optionally `path::NAME!`) in place with the arm of the
+        real `macro_rules! NAME` (text taken from /repo) that has the same number of parameters:
+        `$param` -> argument text, verbatim. Only arms of the form `($a:kind, $b:kind, ..) => {{ .. }};`
+        are supported; anything else is an ExtractError (exit 2)."""
+        mm = mask(macro_text)
+        arms = []
+        pos = mm.index("{") + 1
+        while True:
+            m1 = re.compile(r"\s*\(").match(mm, pos)
+            if not m1:
+                break
+            po = m1.end() - 1
+            pc = match_close(mm, po, "(", ")")
+            params = re.findall(r"\$([A-Za-z_][A-Za-z_0-9]*)\s*:\s*[a-z]+", macro_text[po + 1:pc])
+            if re.sub(r"\$[A-Za-z_][A-Za-z_0-9]*\s*:\s*[a-z]+|[\s,]", "", macro_text[po + 1:pc]):
+                raise ExtractError("%s: R12: macro %s has an arm that is not a plain parameter list" % (self.label, name))
+            m2 = re.compile(r"\s*=>\s*\{\{").match(mm, pc + 1)
+            if not m2:
+                raise ExtractError("%s: R12: macro %s arm body is not `{{ .. }}`" % (self.label, name))
+            bo = m2.end() - 2
+            bc = match_close(mm, bo)
+            arms.append((params, macro_text[bo + 1:bc]))  # inner `{ .. }`
+            m3 = re.compile(r"\s*;?").match(mm, bc + 1)
+            pos = m3.end()
+        if not arms:
+            raise ExtractError("%s: R12: no arms found in macro %s" % (self.label, name))
+        n = 0
+        while True:
+            m = mask(self.text)
+            inv = re.search(r"(?:\b[A-Za-z_][A-Za-z_0-9]*::)*\b%s!\s*\(" % re.escape(name), m)
+            if not inv:
+                break
+            ao = inv.end() - 1
+            ac = match_close(m, ao, "(", ")")
+            args, depth, last = [], 0, ao + 1
+            for k in range(ao + 1, ac):
+                ch = m[k]
+                if ch in "([{":
+                    depth += 1
+                elif ch in ")]}":
+                    depth -= 1
+                elif ch == "," and depth == 0:
+                    args.append(self.text[last:k].strip())
+                    last = k + 1
+            tail = self.text[last:ac].strip()
+            if tail:
+                args.append(tail)
+            arm = [a for a in arms if len(a[0]) == len(args)]
+            if len(arm) != 1:
+                raise ExtractError("%s: R12: %s!(..) with %d arguments matches %d arms" % (self.label, name, len(args), len(arm)))
+            params, body = arm[0]
+            for prm, arg in sorted(zip(params, args), key=lambda t: -len(t[0])):
+                body = re.sub(r"\$%s\b" % re.escape(prm), lambda _m, a=arg: a, body)
+            if "$" in mask(body):
+                raise ExtractError("%s: R12: unexpanded `$` left in %s" % (self.label, name))
+            self.text = self.text[:inv.start()] + body + self.text[ac + 1:]
+            n += 1
+        self.hit("R12-" + name, n)
+        return n
+
     # R11 -----------------------------------------------------------------
     def hoist_closure(self, anchor, call):
         """`ANCHOR { || { BODY } }()` (a closure that is invoked on the spot, used by the code to run
